@@ -806,7 +806,9 @@ static void gen_cursor(hctx* h) {
     }
     /* 3. chunks larger than the skip chunk size (1024) */
     for (int i = 0; i < (thorough ? 12 : 3); i++) {
-        int pg[3] = { 700 + (int)h_below(h, 600), 500 + (int)h_below(h, 700), 1 + (int)h_below(h, 400) };
+        /* at least 3 * 1024 + 128 rows, so that a skip which over-advances by a whole chunk (C02b-1: skip(1500) taking 2048
+         * rows) still finds rows to take and the rows read afterwards are visibly the wrong ones */
+        int pg[3] = { 1100 + (int)h_below(h, 600), 1100 + (int)h_below(h, 700), 1000 + (int)h_below(h, 400) };
         chunk_t ch; gen_chunk(h, &ch, TYPES[i % 4], i % 2, 3, pg, 2);
         fspec_t s; cur_spec(&s, &ch, 1, 1, 0); pfile_t pf;
         if (write_spec(&s, &pf) == 0) {
@@ -814,6 +816,8 @@ static void gen_cursor(hctx* h) {
             exec_cur(h, &pf, &s, i % 3, 0, 0, -1, a, 5);
             cop_t b[4] = { {'r', 1}, {'s', 2047 + (long long)h_below(h, 3)}, {'r', 2000}, {'h', 0} };
             exec_cur(h, &pf, &s, (i + 1) % 3, 0, 0, -1, b, 4);
+            cop_t c[6] = { {'s', 1500}, {'m', 0}, {'r', 2}, {'s', 1025 + (long long)h_below(h, 1000)}, {'m', 0}, {'r', 5} };
+            exec_cur(h, &pf, &s, (i + 2) % 3, 0, 0, -1, c, 6);
         }
         drop_file(&pf); free_spec(&s); free_chunk(&ch);
     }
